@@ -397,8 +397,7 @@ theorem scanCore_spec (scan : Nat → ScanRes) (len : Nat) (hlen : len ≤ xmpMa
     · intro o ho; exact cleanup_getD _ _ _ o ho
     · intro i hi hl
       have hv := inv.own i hi hl
-      have hil : i < (seqLoop scan len (len + 1) _).seq := by rw [← inv.epsLen]; exact hi
-      exact cleanup_getD_keep _ _ _ _ _ hv hil
+      exact cleanup_getD_keep _ _ _ _ _ hv (by rw [← inv.epsLen]; exact hi)
 
 /-! ### Fuel: `len + 1` iterations suffice -/
 
